@@ -357,7 +357,11 @@ func evalC09(c *engine.Case) engine.Verdict {
 						v.Failf("step %d (%s): functions executed %s, twin %s", si, st.Op, a, b)
 						return v
 					}
-					if a, b := normalize(real, or.Events), normalize(twin, ot.Events); a != b {
+					// how OFTEN an ordinary converter runs within one call depends
+					// on the order in which the paths are walked (a value that is
+					// already there is not produced again, a path planned through
+					// the converter runs it again): compare the logs as sets
+					if a, b := normalizeSet(real, or.Events), normalizeSet(twin, ot.Events); a != b {
 						v.Failf("step %d (%s): event log differs from the twin:\n real: %s\n twin: %s", si, st.Op, a, b)
 						return v
 					}
